@@ -114,7 +114,16 @@ def gen_case2(seed):
         r = g.rint((0, 9))
         kname = g.pick(ins)
         size = g.sizes[kname]
-        if r <= 3:
+        same_ = [(a_, b_) for a_ in ins for b_ in ins if a_ < b_ and g.sizes[a_] == g.sizes[b_]]
+        if r == 3 and same_:
+            # one substitution renames two inputs of the leaf at once: a swap, or a shift onto a third name of that size
+            a_, b_ = g.pick(same_)
+            third = [n for n in names if g.sizes[n] == g.sizes[a_] and n not in ins]
+            if third and g.chance(0.4):
+                w = ("sub", leaf, ((a_, ("pyname", b_)), (b_, ("pyname", third[0]))))
+            else:
+                w = ("sub", leaf, ((a_, ("pyname", b_)), (b_, ("pyname", a_))))
+        elif r <= 3:
             w = leaf
         elif r == 4:
             # rename a private input onto a name other factors use (possibly one the leaf keeps: a diagonal)
@@ -145,6 +154,12 @@ def gen_case2(seed):
         except Exception:
             w = leaf
         factors.append(w)
+    if len(factors) >= 2 and g.chance(0.25):
+        # the same leaf as a factor twice (not next to each other when there are three or more factors)
+        src_i = g.rint((0, len(factors) - 1))
+        dup = [f_ for f_ in walk(factors[src_i]) if f_[0] == "ten" and f_[3] == "real"]
+        if dup:
+            factors = [dup[0]] + factors + [dup[0]] if g.chance(0.5) else factors + [dup[0]]
     node = factors[0]
     for f in factors[1:]:
         node = ("bin", p, node, f) if g.chance(0.5) else ("bin", p, f, node)
@@ -188,7 +203,7 @@ class C11(Prop):
         "leaf that does not mention some reduced name"
     )
     assumptions = (
-        "each leaf tensor occurs once (fresh arrays), so the root is multilinear in the entries of a leaf",
+        "equal leaf nodes are one Tensor; a leaf occurring k times makes the root a degree-k polynomial in its entries, whose derivative is taken with the 5-point stencil (as for product reductions)",
         "an expression the adjoint tape rejects (NotImplementedError / ValueError) is a decline",
     )
     cases = {"quick": 2400, "thorough": 40000}
@@ -295,7 +310,9 @@ class C11(Prop):
         stt.count("sem:" + s + "/" + p)
         if case["optimizer"]:
             stt.count("with-optimizer")
-        leaves = Leaves(share=False)
+        # equal leaf nodes are one array / one Tensor object: a leaf may be a factor several times; its adjoint is then
+        # the derivative w.r.t. the shared entry (all occurrences perturbed together; the root is a polynomial in it)
+        leaves = Leaves(share=True)
         try:
             with I.reflect:  # keep Subs / Cat / Slice wrappers as term nodes
                 expr = build(node, leaves)
@@ -343,14 +360,31 @@ class C11(Prop):
                 keymap[(id(k.data), tuple(k.inputs))] = k
         # leaves.arrays is in build order == pre-order of `ten` nodes reached by build (real and integer)
         all_tens = [n for path, n in positions(node) if n[0] == "ten"]
-        if len(all_tens) != len(leaves.arrays):
+        if any(n not in leaves.shared for n in all_tens):
             raise Decline("leaf bookkeeping mismatch")
-        arr_of = {id(n): leaves.arrays[i][0] for i, n in enumerate(all_tens)}
+        arr_of = {id(n): leaves.shared[n] for n in all_tens}
+        occurrences = {}
+        for pth, n in positions(node):
+            if n[0] == "ten" and n[3] == "real":
+                occurrences.setdefault(n, []).append(pth)
+        done_leaves = set()
         wrapped_paths = [pth for pth, n in positions(node) if n[0] in ("sub", "cat")]
         checked = 0
         nreduced = sum(len(n[3]) for n in walk(node) if n[0] == "red")
         lacking = False
         for path, leaf in tens:
+            if leaf in done_leaves:
+                continue
+            done_leaves.add(leaf)
+            paths = occurrences[leaf]
+            multi = len(paths) > 1
+            if multi:
+                stt.count("leaf-used-several-times")
+                if case["optimizer"] and wrapped_paths and any(pth[: len(w)] == w for pth in paths for w in wrapped_paths):
+                    # apply_optimizer (run before the tape) evaluates a wrapped occurrence into a new Tensor, which is then a
+                    # different leaf of the taped expression: the adjoint of the original Tensor covers the other occurrences only
+                    stt.count("shared-leaf-with-a-wrapped-occurrence-under-the-optimizer(skipped)")
+                    continue
             arr = arr_of[id(leaf)]
             key = keymap.get((id(arr), tuple(n for n, sz in leaf[1])))
             if key is None:
@@ -378,11 +412,13 @@ class C11(Prop):
                     else:
                         d2[idx] = d2[idx] + delta
                     leaf2 = ("ten", leaf[1], leaf[2], leaf[3], tuple(d2.reshape(-1).tolist()), False)
-                    node2 = replace_at(node, path, leaf2)
+                    node2 = node
+                    for pth in paths:
+                        node2 = replace_at(node2, pth, leaf2)
                     o2 = Oracle()
                     return {tuple(sorted(pt.items())): float(o2.ev(node2, pt)) for pt in int_points(inputs)}
 
-                if has_plate:
+                if has_plate or multi:
                     h = 1e-2 * max(1.0, abs(math.exp(data[idx]) if log_space else data[idx]))
                     tabs = {k: root_with(k * h) for k in (-2, -1, 1, 2)}
                 else:
@@ -393,7 +429,7 @@ class C11(Prop):
                         continue
                     rk = tuple(sorted(rpt.items()))
                     lin_root = (lambda v: math.exp(v)) if log_space else (lambda v: v)
-                    if has_plate:
+                    if has_plate or multi:
                         f = {k: lin_root(tabs[k][rk]) for k in tabs}
                         deriv = (-f[2] + 8 * f[1] - 8 * f[-1] + f[-2]) / (12 * h)
                     else:
@@ -411,14 +447,14 @@ class C11(Prop):
                             raise Decline("adjoint-binding-raised:" + innermost_funsor_frame(e))
                     if log_space:
                         want = math.log(deriv) if deriv > 1e-300 else float("-inf")
-                        ok = close(got, want) if not has_plate else (got == want or abs(got - want) <= 1e-4 * (1 + abs(want)))
+                        ok = close(got, want) if not (has_plate or multi) else (got == want or abs(got - want) <= 1e-4 * (1 + abs(want)))
                         if want == float("-inf") and got < -600:
                             ok = True
-                        if has_plate and deriv <= 1e-9:
+                        if (has_plate or multi) and deriv <= 1e-9:
                             ok = True  # stencil noise near zero
                     else:
                         want = deriv
-                        ok = close(got, want) if not has_plate else abs(got - want) <= 1e-4 * (1 + abs(want))
+                        ok = close(got, want) if not (has_plate or multi) else abs(got - want) <= 1e-4 * (1 + abs(want))
                     if not ok:
                         raise Violation("adjoint-value", f"leaf {show(leaf)} entry {idx} at {q}: adjoint {got} derivative {want}: {self.describe(case)}")
                     checked += 1
